@@ -3,5 +3,6 @@
 cd /verif
 ids=${@:-$(ls seeded | grep '^C')}
 for id in $ids; do
-  python3 tools/mut.py --patch seeded/$id/patch.diff --props $id 2>&1 | grep -E "CAUGHT|MISSED|FAILED|rej|error" | cut -c1-260
+  prop=${id%%-*}
+  python3 tools/mut.py --patch seeded/$id/patch.diff --props $prop 2>&1 | grep -E "CAUGHT|MISSED|FAILED|rej|error" | sed "s/^patch.diff */$id /" | cut -c1-260
 done
